@@ -107,7 +107,7 @@ func (c *Client) fill() error {
 // returns the first HTTP response if there is one.
 func (c *Client) parseOne() (*Message, error) {
 	for {
-		m, used, err := ParseMessage(c.plain)
+		m, used, err := ParseMessageEOF(c.plain, c.EOF)
 		if err != nil {
 			return nil, err
 		}
